@@ -239,8 +239,10 @@ private:
     UNIFEX_VERIF_YIELD("scope.v0_es_fand");
     auto oldState = opState_.fetch_and(~stoppedBit, std::memory_order_release);
 
-    if (op_count(oldState) == 0) {
-      // there are no outstanding operations to wait for
+    if ((oldState & stoppedBit) != 0u && op_count(oldState) == 0) {
+      // this call stopped the scope and there are no outstanding operations
+      // to wait for; if the scope had already been stopped then whoever
+      // brought the state to (stopped, 0) is responsible for signalling
       evt_.set();
     }
   }
